@@ -92,6 +92,18 @@ def oracle_hostile(ctx, ops, impl):
                     ctx.violation("undocumented-error:" + c, "reply %s is not one of the documented errors" % c, o + "\n")
                 if not c.startswith("E_") and c not in ("OK", "IDENTIFY-RESPONSE"):
                     ctx.violation("unknown-reply", "unexpected reply %r" % txt[:60], o + "\n")
+            if w[1] == "stream" and len(w) > 3:
+                raw = e4.unhex(w[3])
+                want = None if raw[:4] == b"  V1" else ([] if len(raw) < 4 else ["E_BAD_PROTOCOL"])
+                if want is not None and codes != want:
+                    ctx.violation("bad-magic-accepted", "a connection that opened with %r (not the magic \"  V1\") was answered %s "
+                                  "instead of %s" % (raw[:4], codes[:4], want), "\n".join([ops[0], o]) + "\n")
+            exp = [x.split("=", 1)[1] for x in w if x.startswith("expect=")]
+            if exp and codes[-1:] != exp:
+                ctx.violation("documented-error-missing:" + exp[0],
+                              "after a valid IDENTIFY the last command of the stream (REGISTER/UNREGISTER with an invalid name, or a "
+                              "second IDENTIFY) must be refused with %s as the last reply; the replies were %s" % (exp[0], codes[-4:]),
+                              "\n".join([ops[0], o]) + "\n")
             if "noident=1" in w and "IDENTIFY-RESPONSE" in codes:
                 ctx.violation("identify-trailing-garbage-accepted",
                               "an IDENTIFY whose declared body has non-white-space bytes after the JSON document was "
@@ -144,7 +156,9 @@ def oracle_hostile(ctx, ops, impl):
                             (len(h.split()) > 2 and h.split()[2] == by and h.split()[1] in ("identify", "register"))]
                     ctx.violation("bystander-lost:" + kind, what + ": %s" % ((shown + nd)[:3],),
                                   "\n".join(mini + [hist[-1]]) + "\n")
-    ctx.corr["hostile_reply_kinds"] = kinds
+    tot = ctx.corr.setdefault("hostile_reply_kinds", {})
+    for k_, v_ in kinds.items():
+        tot[k_] = tot.get(k_, 0) + v_
 
 
 def oracle_sweep(ctx, ops, impl):
@@ -164,10 +178,15 @@ def oracle_sweep(ctx, ops, impl):
                 ctx.violation("http-ping-body", "GET /ping answered %s instead of the body OK" % q[0], o + "\n")
             if code == 200 and w[w.index("raw") + 1:w.index("raw") + 3] == ["GET", "/info"] and "body=version" not in q[0]:
                 ctx.violation("http-info-body", "GET /info answered %s instead of {\"version\": <binary version>}" % q[0], o + "\n")
-            if code >= 500 or code < 0:
-                ctx.violation("http-5xx:" + " ".join(w[2:4]), "HTTP request answered %s" % q[0], o + "\n")
-            if 400 <= code < 500 and len(q) > 1 and prevq is not None and q[1] != prevq:
-                ctx.violation("http-4xx-changed:" + " ".join(w[2:4]),
+            k = w.index("raw")
+            busy_ok = code == 500 and w[k + 1:k + 3] == ["GET", "/debug/pprof/profile"]   # text judged in the harness (E4-ORACLE)
+            if (code >= 500 and not busy_ok) or code < 0:
+                ctx.violation("http-5xx:" + " ".join(w[k + 1:k + 3]), "HTTP request answered %s" % q[0], o + "\n")
+            if code in (301, 307, 308) and (code == 301) != (w[k + 1] == "GET"):
+                ctx.violation("http-redirect-code:" + w[k + 1], "redirect %d for method %s (301 is for GET only: another method "
+                              "would be re-sent as GET)" % (code, w[k + 1]), o + "\n")
+            if not (200 <= code < 300) and len(q) > 1 and prevq is not None and q[1] != prevq:
+                ctx.violation("http-non2xx-changed:" + " ".join(w[k + 1:k + 3]),
                               "a request answered %d changed the registry: %s" % (code, o), o + "\n")
         prevq = q[1] if len(q) > 1 else None
     ctx.corr["sweep_status_histogram"] = st
@@ -209,6 +228,42 @@ def liveness(ctx, binp, params=None):
     return ["liveness harness exit %s" % rc]
 
 
+UNBOUNDED = {
+    "line": ("unbounded-line-read",
+             "a TCP connection sent %d bytes without a newline; nsqlookupd buffered all of them (live heap +%d bytes) and kept "
+             "waiting: reader.ReadString('\\n') at lookup_protocol_v1.go:41 has no maximum line length"),
+    "http-body": ("unbounded-http-body-read",
+                  "a POST /topic/create carried a %d-byte body; nsqlookupd buffered all of it (live heap +%d bytes) before looking "
+                  "at the request: io.ReadAll(req.Body) in internal/http_api/req_params.go:21 has no limit"),
+}
+
+
+def unbounded(ctx, binp):
+    """open known findings unbounded-line-read / unbounded-http-body-read: replayed on every run (corpus/C15/known/)"""
+    mib = 32
+    for l in e4.read_lines(os.path.join(ROOT, "corpus", "C15", "known", "unbounded_reads.txt")):
+        if l.startswith("mib="):
+            mib = int(l.split("=")[1])
+    rc, out = e4.run_leg(ctx, binp, "TestVerifE4Unbounded", {"VERIF_UNBOUNDED_MIB": mib}, 300, real_failure=died)
+    if died(rc, out):
+        ctx.violation("crash:unbounded", "nsqlookupd died while a peer sent %d MiB without a newline / as a POST body" % mib, out[-3000:])
+        return []
+    if rc != 0 or "E4-UNBOUNDED-DONE" not in out:
+        ctx.log("unbounded-read replay failed (rc=%s):\n%s" % (rc, out[-1500:]))
+        return ["unbounded-read replay did not complete"]
+    for l in out.splitlines():
+        if l.startswith("E4-UNBOUNDED"):
+            ctx.corr.setdefault("unbounded_reads", []).append(l)
+        if l.startswith("E4-UNBOUNDED kind="):
+            kv = dict(x.split("=", 1) for x in l.split()[1:])
+            ctx.evaluations += 1
+            if kv.get("reproduced") == "true":
+                key, what = UNBOUNDED[kv["kind"]]
+                ctx.violation(key, what % (int(kv["sent"]), int(kv["live_heap_growth"])),
+                              "unbounded kind=%s mib=%d\n# run: ./check C15 (TestVerifE4Unbounded, corpus/C15/known/unbounded_reads.txt)\n" % (kv["kind"], mib))
+    return []
+
+
 def run_replay(ctx, binp, path, label, must_pass_key=None):
     """a committed replay runs in its own process (it may kill it)"""
     rc, out = e4.run_leg(ctx, binp, "TestVerifE4Replay", {"VERIF_REPLAY": path}, timeout=300, real_failure=died)
@@ -233,6 +288,12 @@ def run(ctx):
     ctx.assumptions += [
         "encoding/json.Unmarshal into PeerInfo is an arbitrary function `decode` (every theorem quantifies over it)",
         "writes of replies succeed (a failing write ends the loop like a fatal error)",
+        "isolation (tcp_isolation) is per TCP connection and for handler calls that do not overlap; the HTTP admin API is the "
+        "unauthenticated operator surface: admin_call_touches_only states which entries each accepted call touches",
+        "HTTP paths with non-ASCII bytes / %-escapes are outside the class the router model is tied on (httprouter folds case with "
+        "strings.EqualFold); pprof answers written after the client has gone are not exercised",
+        "memory is NOT bounded per peer: open known findings unbounded-line-read / unbounded-http-body-read "
+        "(line_buffer_bounded_false); the liveness leg is a stress test (test evidence), not a proof",
     ]
     ctx.rule = ("(liveness leg: readers on every read route + TCP peers + admin calls run concurrently, then every route "
                 "and a fresh IDENTIFY+REGISTER must be answered within a deadline) hostile byte streams, each on a fresh TCP connection next to a well-behaved bystander producer: "
@@ -286,10 +347,22 @@ def run(ctx):
             if s == 0:
                 for k in (5, len(ops) // 2):
                     ctx.add_sample({"op": ops[k][:300], "impl": impl[k][:300]})
+        # reach of the hostile generator (audit C32): every documented error code must be a sizeable share of the
+        # error replies, i.e. the streams get past IDENTIFY into getTopicChan (evidence only, not a verdict)
+        kinds = ctx.corr.get("hostile_reply_kinds", {})
+        errs = sum(v for k, v in kinds.items() if k.startswith("E_"))
+        share = {k: round(100.0 * v / max(errs, 1), 1) for k, v in kinds.items() if k.startswith("E_")}
+        ctx.corr["hostile_error_share_percent"] = share
+        thin = [c for c in ("E_BAD_TOPIC", "E_BAD_CHANNEL", "E_INVALID", "E_BAD_BODY") if share.get(c, 0) < 10.0]
+        if thin and errs:
+            ctx.notes.append("hostile generator reach below 10%% of the error replies for %s (%s)" % (thin, share))
         # 2b. concurrent liveness ("stop it answering others")
         broken += liveness(ctx, binp)
-        # 3. HTTP sweep (in-process router; thorough: also over real HTTP, all value classes)
-        sweeps = [{}] if not ctx.thorough() else [{"VERIF_FULL": "1"}, {"VERIF_REALHTTP": "1"}]
+        # 2c. open known findings: unbounded line / body reads (replayed on every run)
+        broken += unbounded(ctx, binp)
+        # 3. HTTP sweep through the daemon's real listener (thorough: all value classes; and once more through
+        #    ServeHTTP on a second server object for comparison)
+        sweeps = [{}] if not ctx.thorough() else [{"VERIF_FULL": "1"}, {"VERIF_INPROC": "1"}]
         for env in sweeps:
             rc, out = e4.run_leg(ctx, binp, "TestVerifE4HttpSweep", env, 900, real_failure=died)
             if rc != 0:
@@ -299,6 +372,11 @@ def run(ctx):
                 broken.append("sweep harness exit %s" % rc)
                 continue
             e4.hist_lines(ctx, out, "sweep")
+            for l in out.splitlines():
+                if l.startswith("E4-ORACLE pprof-undocumented-answer"):
+                    ctx.violation("pprof-undocumented-answer:" + " ".join(l.split()[2:4])[:80],
+                                  "a net/http/pprof row answered something other than 200 / 400 (bad `seconds`) / 500 (CPU "
+                                  "profile already running): " + l[:300], l.split(" | ", 1)[-1] + "\n")
             ops = e4.read_lines(os.path.join(ctx.work, "sweep.ops"))
             impl = e4.read_lines(os.path.join(ctx.work, "sweep.impl"))
             model = e4.model_lines(ctx, os.path.join(ctx.work, "sweep.ops"))
